@@ -263,7 +263,9 @@ def normal_jobs(r, n: int, prefix: str, max_boards: int = 3) -> List[tuple]:
                # the command lines of server and client switch DEBUG logging on
                'debug_logging': k % 5 == 3,
                # the transport delivers what is sent in segments
-               'segment': k % 3 == 1}
+               'segment': k % 3 == 1,
+               # the players keep their connections open until run() has returned
+               'linger': k % 4 == 2}
         if k % 9 == 4:
             # team names outside ASCII
             cfg['teams'] = (r.choice(['Équipe Zürich', '東京', 'Ünïcødé']) + rand_id(r).strip(),
